@@ -6,6 +6,36 @@ import os
 HERE = os.path.dirname(os.path.dirname(os.path.abspath(__file__)))
 
 CLAIMS = {
+    "C01": dict(
+        text="Static dependence / def-use analysis of the six context-free policies over fit, partial_fit, add_arm "
+             "and remove_arm: fields are classified (computed) as accumulators or derived; a derived value never "
+             "feeds on its own previous value without being rebuilt, every write to one of its inputs is followed "
+             "by a batch-unconditional re-derivation, its transitive input set equals the documented one and is "
+             "indexed by the same arm, rows are selected by one decisions == arm selector, neutral constants of "
+             "__init__/fit/add_arm agree, accumulator updates are guarded only by selection size. This decides "
+             "that each arm's statistic is a function of exactly that arm's observations since the last fit for "
+             "every history; it does not decide the arithmetic of the formulas or sampling distributions. Found "
+             "and now guards the repaired Popularity re-normalisation defect.",
+        note="Trusted: C07's reset obligations (shared); externals table; CPython ast. Not decided: formulas as "
+             "numbers, distributions of randomised outputs.",
+        technique="def-use / dependence analysis on abstract-interpretation traces (accumulator vs derived "
+                  "classification, self-dependence with in-function kill, staleness with batch/state guard "
+                  "classification), AST selector and key discipline rules",
+        ref="DESIGN.md section 3, C01"),
+    "C06": dict(
+        text="Static sibling comparison and def-use analysis: fit == reset o partial_fit in a normal form for the "
+             "ten classes of the quantifier; every non-accumulating store on the partial_fit path (including "
+             "private copies that are published) derives from accumulated state and never from the batch; derived "
+             "purity and staleness on the partial_fit path (UCB1's N, Popularity's normalisation); tasks of arms "
+             "absent from a chunk are no-ops or idempotent; LSH index offset read-before-append, passed and "
+             "applied, planes untouched; first partial_fit delegates to fit; history appended old-then-new with "
+             "matching operands. Decides the structural reasons why chunked and batch training build the same "
+             "state for every chunking; floating-point rounding of linear policies is not decided.",
+        note="Trusted: np.concatenate order; C07's kill analysis of fit; externals table. TreeBandit and scale=True "
+             "excluded by the property.",
+        technique="sibling normal-form comparison of fit/partial_fit ASTs + def-use analysis on "
+                  "abstract-interpretation traces (accumulate form, batch taint through call sites)",
+        ref="DESIGN.md section 3, C06"),
     "C05": dict(
         text="Static decomposition of the property: (1) row-locality of all 8 _predict_contexts bodies - every "
              "generator draw reachable from the per-row loop is traced, through deepcopy provenance and nested "
